@@ -117,8 +117,8 @@ class BinaryData:
 
     def close_and_add_segment(self, fjm_writer: Writer) -> None:
         if self.next_wflip_address == self.first_address:
-            # nothing to write, but labels may have been declared here: the (empty) segment can't start beyond the memory
-            if self.first_address > (1 << self.memory_width):
+            # nothing to write, but labels may have been declared here: the (empty) segment can't start outside the memory
+            if self.first_address < 0 or self.first_address > (1 << self.memory_width):
                 assert_address_in_memory(self.memory_width, self.first_address)
             return
 
